@@ -1116,6 +1116,7 @@ def run(ctx):
         guard.close()
     float32_oracle(ctx)
     integer_bounds_oracle(ctx)
+    factory_inverter_oracle(ctx)
 
 
 def _run(ctx, guard):
@@ -1186,6 +1187,45 @@ def integer_bounds_oracle(ctx):
                               f"but {roots['float'].tolist()} with float bounds; the true preimage is {x.tolist()}",
                               case=dict(unit="integer-bounds", kind=kind, lower=lo, upper=hi, x=x.tolist(), map="TriangularAffine" if rep % 2 else "Affine"),
                               found_input=True, unit=u.name, expected=x.tolist(), observed=roots[kind].tolist(), broken="integer-bounds / C10_search_within_tol")
+
+
+def factory_inverter_oracle(ctx):
+    """block_neural_autoregressive_flow(inverter=custom, invert=...): every layer of the flow must search with the inverter the caller
+    asked for (its tolerance, bounds, max_iter), in BOTH orientations, so the numerically inverted direction meets the requested
+    tolerance.  Structural check + one functional round trip.  (Seeded change C10e forwarded the inverter only when invert=True.)"""
+    import jax
+    import jax.numpy as jnp
+    import jax.random as jr
+    import flowjax.flows as F
+    from flowjax.bisection_search import AutoregressiveBisectionInverter
+    from flowjax.distributions import StandardNormal
+
+    u = ctx.unit("factory-inverter", "block_neural_autoregressive_flow with a custom AutoregressiveBisectionInverter (tol 1e-10, bounds +-25, max_iter 300), invert in "
+                                     "{True, False}: every inverter inside the flow is the requested one; the numerically inverted direction round-trips to 1e-8")
+    custom = AutoregressiveBisectionInverter(lower=-25.0, upper=25.0, tol=1e-10, max_iter=300)
+    for inv in (True, False):
+        flow = F.block_neural_autoregressive_flow(jr.PRNGKey(int(ctx.rng.integers(0, 2**31))), base_dist=StandardNormal((2,)), flow_layers=2, nn_block_dim=3,
+                                                  invert=inv, inverter=custom)
+        found = [l for l in jax.tree_util.tree_leaves(flow, is_leaf=lambda x: isinstance(x, AutoregressiveBisectionInverter)) if isinstance(l, AutoregressiveBisectionInverter)]
+        u.count(("factory-inverter", inv), tag=f"invert={inv}")
+        bad = [f for f in found if not (float(f.tol) == 1e-10 and int(f.max_iter) == 300 and float(np.ravel(f.lower)[0]) == -25.0 and float(np.ravel(f.upper)[0]) == 25.0)]
+        errs = []
+        if not found or bad:
+            errs.append(f"{len(bad)} of {len(found)} inverters inside the flow are not the requested one (e.g. tol {float(bad[0].tol) if bad else None})")
+        else:
+            bij = flow.bijection
+            x = jnp.asarray(ctx.rng.normal(0, 1, 2))
+            # the numerically inverted direction: transform for invert=True, inverse for invert=False
+            if inv:
+                back = bij.inverse(bij.transform(x))
+            else:
+                back = bij.transform(bij.inverse(x))
+            err = float(np.max(np.abs(np.asarray(back) - np.asarray(x))))
+            if not err <= 1e-8:
+                errs.append(f"round trip through the numerically inverted direction is off by {err:.3g} although tol = 1e-10 was requested")
+        if errs:
+            ctx.violation(sig=f"factory-inverter:invert={inv}", what=f"block_neural_autoregressive_flow(invert={inv}, inverter=AutoregressiveBisectionInverter(tol=1e-10, ...)): " + "; ".join(errs),
+                          case=dict(unit="factory-inverter", invert=inv), found_input=True, unit=u.name, broken="factory-inverter (configured search tolerance is honoured)")
 
 
 def float32_oracle(ctx):
